@@ -7,7 +7,7 @@ Open Scope nat_scope.
 
 Definition exp_p := (Z * string * list (nat * nat))%type.
 Definition exp_c := (Z * string * Z * Z * list nat * bool * list string * Z * Z)%type.   (* dbid,name,min,max,instr,fixed,hidden,factor bits,offset bits *)
-Definition exp_read := (list exp_p * list exp_c * option (nat * list nat) * Z * Z * nat)%type.   (* ..., quality, event id, track id, ignored regs *)
+Definition exp_read := (list exp_p * list exp_c * option (nat * list nat) * Z * Z * nat * option nat)%type.   (* ..., quality, event id, track id, ignored regs *)
 Definition read_case := (json * option Z * bool * bool * option string * option string * option exp_read)%type.
 
 (* `v.as_f64() as f32` of a numeric JSON value *)
@@ -21,7 +21,7 @@ Definition pair_nn_eqb (a b : nat * nat) : bool := Nat.eqb (fst a) (fst b) && Na
 Definition read_agree (r : result (list rpart * list rcourse * ramb)) (e : option exp_read) : bool :=
   match r, e with
   | RErr _, None => true
-  | ROk (ps, cs, amb), Some (eps, ecs, eq, eid, tid, nign) =>
+  | ROk (ps, cs, amb), Some (eps, ecs, eq, eid, tid, nign, nigc) =>
     eqb_list (fun p (ep : exp_p) => let '(d, n, ch) := ep in (rp_dbid p =? d)%Z && String.eqb (rp_name p) n && eqb_list pair_nn_eqb (rp_choices p) ch) ps eps &&
     eqb_list (fun (cf : rcourse * (option json * option json)) (ec : exp_c) => let '(d, n, mn, mx, ins, fx, hid, fb, ob) := ec in let c := fst cf in
                (rc_dbid c =? d)%Z && String.eqb (rc_name c) n && (rc_min c =? mn)%Z && (rc_max c =? mx)%Z && eqb_list Nat.eqb (rc_instr c) ins &&
@@ -31,7 +31,8 @@ Definition read_agree (r : result (list rpart * list rcourse * ramb)) (e : optio
     (match ra_qual amb, eq with
      | Some (ni, pens), Some (eni, epens) => Nat.eqb ni eni && eqb_list Nat.eqb pens epens
      | None, None => true | _, _ => false end) &&
-    (ra_event amb =? eid)%Z && (ra_track amb =? tid)%Z && Nat.eqb (ra_ign_regs amb) nign
+    (ra_event amb =? eid)%Z && (ra_track amb =? tid)%Z && Nat.eqb (ra_ign_regs amb) nign &&
+    (match nigc with Some n => Nat.eqb (ra_ign_courses amb) n | None => true end)
   | _, _ => false
   end.
 
@@ -62,7 +63,7 @@ Definition must_refuseb (j : json) (tr : option Z) : bool :=
 (* each choice of each participant of the implementation's problem carries a penalty equal to its position in that registration's
    choice list of the export, and points to the course with that id *)
 Definition penalties_okb (j : json) (e : exp_read) : bool :=
-  let '(eps, ecs, _, _, tid, _) := e in
+  let '(eps, ecs, _, _, tid, _, _) := e in
   forallb (fun ep : exp_p =>
     let '(rid, _, chs) := ep in
     match get "registrations" j with
@@ -147,7 +148,7 @@ Definition ext_quality (j : json) (tid : Z) (ic : bool) : option (nat * list nat
   | _, _, _, _ => None
   end.
 Definition ext_quality_okb (j : json) (ic ia : bool) (e : exp_read) : bool :=
-  let '(_, _, q, _, tid, _) := e in
+  let '(_, _, q, _, tid, _, _) := e in
   match q with
   | Some (ni, pens) => ia && match ext_quality j tid ic with Some (ni', pens') => Nat.eqb ni ni' && eqb_list Nat.eqb pens pens' | None => false end
   | None => negb ia end.
@@ -155,7 +156,7 @@ Definition ext_quality_okb (j : json) (ic ia : bool) (e : exp_read) : bool :=
 (* C12, "exactly the registrations ... that have a valid choice or instruct an offered course": every participant of the implementation's
    problem has a choice or is listed as instructor of one of the problem's courses (by its index), on the implementation's output alone *)
 Definition involved_okb (e : exp_read) : bool :=
-  let '(eps, ecs, _, _, _, _) := e in
+  let '(eps, ecs, _, _, _, _, _) := e in
   forallb (fun ip : nat * exp_p =>
              let '(i, (_, _, chs)) := ip in
              negb (match chs with [] => true | _ => false end) ||
